@@ -649,13 +649,24 @@ func Exec(kind string, in []string) []string {
 	var store storage.Store
 	var err error
 	var dir string
+	// mode …@cfg<K>: the storage configuration as an operator can WRITE it, through the real
+	// constructors registered as cmd/inbucket does (storage.FromConfig): see cfgVariant
+	cfgK := 0
+	if i := strings.Index(mode, "@cfg"); i >= 0 {
+		cfgK = vh.AtoI(mode[i+4:])
+		mode = mode[:i]
+	}
+	storage.Constructors["file"] = file.New
+	storage.Constructors["memory"] = mem.New
 	switch kind {
 	case "mem":
 		params := map[string]string{}
 		if maxkb > 0 {
 			params["maxkb"] = strconv.Itoa(maxkb)
 		}
-		store, err = mem.New(config.Storage{Type: "memory", Params: params, MailboxMsgCap: capN}, host)
+		c := config.Storage{Type: "memory", Params: params, MailboxMsgCap: capN}
+		cfgVariant(cfgK, &c)
+		store, err = storage.FromConfig(c, host)
 	case "file":
 		base := os.Getenv("VERIF_WORKDIR")
 		if base == "" {
@@ -665,11 +676,16 @@ func Exec(kind string, in []string) []string {
 		dir = fmt.Sprintf("%s/fs-%d-%d", base, os.Getpid(), dirSeq)
 		_ = os.RemoveAll(dir)
 		if err = os.MkdirAll(dir, 0o770); err == nil {
-			store, err = file.New(config.Storage{Type: "file", Params: map[string]string{"path": dir}, MailboxMsgCap: capN}, host)
+			c := config.Storage{Type: "file", Params: map[string]string{"path": dir}, MailboxMsgCap: capN}
+			cfgVariant(cfgK, &c)
+			store, err = storage.FromConfig(c, host)
 		}
 		defer os.RemoveAll(dir)
 	default:
 		return []string{"UNKNOWN-KIND"}
+	}
+	if err != nil && cfgK != 0 {
+		return []string{"NEWERR"} // a configuration the constructor refuses: the case ends here
 	}
 	if err != nil {
 		return []string{"NEWERR", vh.HS(err.Error())}
@@ -719,6 +735,39 @@ func Exec(kind string, in []string) []string {
 		}
 	}
 	return outs
+}
+
+// cfgVariant rewrites the storage configuration the way variant k spells it (the <cap>/<maxkb> fields of
+// the line stay what the MODEL is told; variants 1-5 are only used with maxkb = 0, 6 with cap = 0):
+//
+//	1 maxkb:0 present        -> no limit        2 maxkb: (empty)   -> constructor error
+//	3 maxkb:-5               -> no limit        4 maxkb:abc        -> constructor error
+//	5 maxkb:9007199254740991 -> never reached   6 cap -3           -> no cap
+//	7 file: path with a trailing slash; memory: an unknown extra parameter -> as without
+//
+// (what the unchanged constructors do with each; maxkb values whose *1024 overflows int64 are left out:
+// the clean tree then computes a negative limit.)
+func cfgVariant(k int, c *config.Storage) {
+	switch k {
+	case 1:
+		c.Params["maxkb"] = "0"
+	case 2:
+		c.Params["maxkb"] = ""
+	case 3:
+		c.Params["maxkb"] = "-5"
+	case 4:
+		c.Params["maxkb"] = "abc"
+	case 5:
+		c.Params["maxkb"] = "9007199254740991"
+	case 6:
+		c.MailboxMsgCap = -3
+	case 7:
+		if p, ok := c.Params["path"]; ok {
+			c.Params["path"] = p + "/"
+		} else {
+			c.Params["colour"] = "blue"
+		}
+	}
 }
 
 // ---------------------------------------------------------------- generators
